@@ -674,6 +674,18 @@ func faultTrees() []faultTree {
 		put("base.tw", "layout", append([]model.Stmt{model.Text{S: "near miss "}}, lay1...))
 		put("parts/card.tw", "component", []model.Stmt{model.Text{S: "<near>"}, model.Print{E: model.Var{Name: "t"}}, model.Text{S: "</near>"}})
 		put("zz.tw", "page", []model.Stmt{model.Use{Name: "base"}, model.Insert{Name: "body", Block: []model.Stmt{model.Component{Name: "parts/card", Args: &model.ObjLit{Keys: []string{"t"}, Vals: []model.Expr{model.StrLit{S: "z"}}}}}}})
+		// names with the alias character in their middle, at their end, and behind the alias itself
+		put("layouts/base~v2.tw", "layout", append([]model.Stmt{model.Text{S: "v2 "}}, lay1...))
+		put("components/card~small.tw", "component", []model.Stmt{model.Text{S: "<small>"}, model.Print{E: model.Var{Name: "t"}}, model.Text{S: "</small>"}})
+		put("components/~tilde.tw", "component", []model.Stmt{model.Text{S: "<tilde>"}, model.Print{E: model.Var{Name: "t"}}, model.Text{S: "</tilde>"}})
+		put("tilde.tw", "page", []model.Stmt{model.Use{Name: "~base~v2"}, model.Insert{Name: "title", E: model.StrLit{S: "T"}}, model.Insert{Name: "body", Block: []model.Stmt{
+			model.Component{Name: "components/card~small", Args: &model.ObjLit{Keys: []string{"t"}, Vals: []model.Expr{model.StrLit{S: "a"}}}},
+			model.Component{Name: "~card~small", Args: &model.ObjLit{Keys: []string{"t"}, Vals: []model.Expr{model.StrLit{S: "b"}}}},
+			model.Component{Name: "~~tilde", Args: &model.ObjLit{Keys: []string{"t"}, Vals: []model.Expr{model.StrLit{S: "c"}}}}}}})
+		put("tilde2.tw", "page", []model.Stmt{model.Use{Name: "layouts/base~v2"}, model.Insert{Name: "body", E: model.StrLit{S: "x~y"}}})
+		ft.usedBy["layouts/base~v2.tw"] = "tilde.tw"
+		ft.usedBy["components/card~small.tw"] = "tilde.tw"
+		ft.usedBy["components/~tilde.tw"] = "tilde.tw"
 		ft.usedBy["base.tw.tw"] = "index.tw"
 		ft.usedBy["parts/card.tw.tw"] = "index.tw"
 		ft.usedBy["base.tw"] = "zz.tw"
